@@ -362,6 +362,7 @@ fn json_run(run: &VerifLbfgsRun, max_steps: usize) -> Value {
 // search oracles
 // ------------------------------------------------------------------------------------------
 struct LrStats {
+    worst_step_increase: f64,
     worst_pos_df0: f64,
     worst_cont: f64,
     max_legs: usize,
@@ -411,15 +412,29 @@ fn check_fit(out: &mut Out, st: &mut LrStats, x: &[Vec<f64>], y: &[f64], alpha: 
         w["f_end"] = json!(f_end);
         out.fail("objective_not_increased", "penalised negative log-likelihood at the returned point exceeds its value at the all-zero start", w);
     }
-    // every recorded step must not increase the objective either (the optimiser's own numbers)
+    // the optimiser's own numbers, step by step: the accepted step passes the sufficient-decrease test (exactly, in
+    // binary64), so it cannot increase the objective along a descent direction.  (Along a direction with df0 > 0 —
+    // see check_descent — the test itself allows an increase of c1*alpha*df0; such steps are counted, the clause
+    // of the property for fits is about the final objective only and is checked above.)
     for (i, s) in fit.run.steps.iter().enumerate() {
-        if !(s.f_new <= s.f) {
+        let armijo = s.f_new <= s.f + 1e-4 * s.alpha * s.df0;
+        let increased = !(s.f_new <= s.f);
+        if !armijo || (increased && !(s.df0 > 0.0)) {
             let mut w = input.clone();
             w["step"] = json!(i);
             w["f"] = json!(s.f);
             w["f_new"] = json!(s.f_new);
-            out.fail("objective_not_increased", "an L-BFGS iteration increased the objective", w);
+            w["df0"] = json!(s.df0);
+            w["step_alpha"] = json!(s.alpha);
+            out.fail("objective_not_increased", "an L-BFGS iteration violated the sufficient-decrease inequality or increased the objective along a descent direction", w);
             break;
+        }
+        if increased {
+            out.count("search:fit:steps-increasing-the-objective-along-a-non-descent-direction");
+            let rel = (s.f_new - s.f) / f_start.abs().max(1e-300);
+            if rel > st.worst_step_increase {
+                st.worst_step_increase = rel;
+            }
         }
     }
     check_descent(out, &fit.run, "fit", &mut st.worst_pos_df0);
@@ -631,7 +646,8 @@ fn check_quad(out: &mut Out, qs: &mut QuadStats, a: &[Vec<f64>], b: &[f64], x0: 
             }
             0.5 * q + b.iter().zip(x.iter()).map(|(u, v)| (u * v).abs()).sum::<f64>()
         };
-        let noise = f64::EPSILON * fscale(&r.x).max(f0.abs()).max(f_end.abs());
+        // rounding error accumulated by the n^2 + n terms of one objective evaluation
+        let noise = ((n * n + n + 2) as f64) * f64::EPSILON * fscale(&r.x).max(f0.abs()).max(f_end.abs());
         let buy = g_end * g_end / (2.0 * a_inf);
         let strict = g_end <= 1e-6 * g0 || g_end <= 1e-8;
         let kk = buy / noise.max(1e-300);
@@ -892,7 +908,7 @@ fn corr_predict(out: &mut Out, rng: &mut Rng, x: &[Vec<f64>], y: &[f64], alpha: 
             z[0].abs() > 1e-9 * sc
         } else {
             let mut s = z.clone();
-            s.sort_by(|a, b| b.partial_cmp(a).unwrap());
+            s.sort_by(|a, b| b.partial_cmp(a).unwrap_or(std::cmp::Ordering::Equal));
             s[0] - s[1] > 1e-9 * sc
         }
     });
@@ -950,7 +966,7 @@ fn replay(path: &str) -> i32 {
     let v = read_replay(path);
     let inp = if v.get("input").is_some() { v["input"].clone() } else { v.clone() };
     let mut out = Out::new("C09", "replay");
-    let mut st = LrStats { worst_pos_df0: 0.0, worst_cont: 0.0, max_legs: 0, worst: [0.0; 5], exits: [0; 5] };
+    let mut st = LrStats { worst_step_increase: 0.0, worst_pos_df0: 0.0, worst_cont: 0.0, max_legs: 0, worst: [0.0; 5], exits: [0; 5] };
     let mut qs = QuadStats { worst_pos_df0: 0.0, worst_k: 0.0, worst_ratio: 0.0, worst_iters: 0 };
     match inp["entry"].as_str().unwrap_or("") {
         "fit" | "predict" => {
@@ -1147,7 +1163,7 @@ fn main() {
         "C09",
         "search case = (training set, alpha) | (SPD quadratic, start, interpolation order) | (objective, point) | (1-D polynomial line search); non-trivial: fit with more rows than classes and starting gradient >= 0.05, quadratic of dimension >= 2 not started at its optimum, objective point with alpha > 0, line search along a descent direction; distinct by hash of all numbers of the input",
     );
-    let mut st = LrStats { worst_pos_df0: 0.0, worst_cont: 0.0, max_legs: 0, worst: [0.0; 5], exits: [0; 5] };
+    let mut st = LrStats { worst_step_increase: 0.0, worst_pos_df0: 0.0, worst_cont: 0.0, max_legs: 0, worst: [0.0; 5], exits: [0; 5] };
     let mut qs = QuadStats { worst_pos_df0: 0.0, worst_k: 0.0, worst_ratio: 0.0, worst_iters: 0 };
     let t0 = std::time::Instant::now();
 
@@ -1200,7 +1216,7 @@ fn main() {
     let t_corr = t0.elapsed().as_secs_f64();
 
     // ---- search: objective functions at random points ----
-    for _ in 0..(if a.thorough { 3000 } else { 400 }) {
+    for _ in 0..(if a.thorough { 12000 } else { 1500 }) {
         let n = rng.usize_in(1, 30);
         let p = rng.usize_in(1, 6);
         let k = rng.usize_in(2, 4);
@@ -1213,7 +1229,7 @@ fn main() {
         check_objective_point(&mut out, &x, &yi, alpha, &w, k);
     }
     // ---- search: line search on random cubics / quartics ----
-    for _ in 0..(if a.thorough { 20000 } else { 2000 }) {
+    for _ in 0..(if a.thorough { 60000 } else { 6000 }) {
         let deg = rng.usize_in(2, 4);
         let mut cs: Vec<f64> = (0..=deg).map(|_| rng.normal() * *rng.pick(&[1.0, 5.0, 30.0, 1000.0])).collect();
         if rng.chance(0.9) {
@@ -1226,7 +1242,7 @@ fn main() {
         check_linesearch_armijo(&mut out, &cs, thr, *rng.pick(&[1.0, 0.5, 2.0]), rng.bool(), 1000);
     }
     // ---- search: L-BFGS on SPD quadratics, dimension 1..12, cond <= 1e4, any start ----
-    for i in 0..(if a.thorough { 4000 } else { 500 }) {
+    for i in 0..(if a.thorough { 12000 } else { 1500 }) {
         let n = rng.usize_in(1, 12);
         let cond = if n == 1 { 1.0 } else { log_uniform(&mut rng, 1.0, 1e4) };
         let lmax = log_uniform(&mut rng, 1e-2, 1e2);
@@ -1242,7 +1258,7 @@ fn main() {
         }
     }
     // ---- search: logistic regression fits ----
-    let nfit = if a.thorough { 2500 } else { 260 };
+    let nfit = if a.thorough { 5000 } else { 600 };
     for i in 0..nfit {
         let k = *rng.pick(&[2usize, 2, 3, 3, 4]);
         let n = if rng.chance(0.15) { rng.usize_in(6, 9).max(k + 1) } else { rng.usize_in(10, if a.thorough { 100 } else { 60 }) };
@@ -1262,6 +1278,7 @@ fn main() {
         json!({"exits": {"start": st.exits[0], "gradient": st.exits[1], "step": st.exits[2], "objective_flat": st.exits[3], "max_iter": st.exits[4]},
                "worst_ratio": {"start": st.worst[0], "gradient": st.worst[1], "step": st.worst[2], "objective_flat": st.worst[3], "max_iter": st.worst[4]},
                "limits": {"gradient": TOL_GRAD_EXIT, "flat": TOL_FLAT_EXIT, "max_iter": TOL_MAXITER},
+               "largest_single_step_increase_along_a_non_descent_direction_relative_to_starting_objective": st.worst_step_increase,
                "max_iter_runs_continued": {"worst_ratio_after_continuation": st.worst_cont, "max_legs_of_1000_iterations": st.max_legs}}),
     );
     out.set("quadratics", json!({"worst_gradient_ratio": qs.worst_ratio, "max_iterations": qs.worst_iters,
